@@ -21,11 +21,26 @@
 (*    floats); near[e+1] = value >= s*(1-2^-20), start = |100*v0 - s| <=   *)
 (*    s*2^-20, both decided by the harness with exact rationals            *)
 (* [k |-> "base", sU, c, v, frac]  BaseRegularizer: value = strength*cost  *)
+(*    (strength sU units, exact)                                           *)
+(* [k |-> "baseq", sM, c, vq, big, form]  BaseRegularizer with an arbitrary*)
+(*    decimal strength sM * 10^sE given in any accepted form (python int / *)
+(*    float, 0-d tensor, or omitted = the documented default 1e-3): vq is  *)
+(*    the observed value in units of 10^(sE-2); clause |vq - 100*sM*c| <=  *)
+(*    2 + 100*sM*c/10^6 (float32 round-off), big = value out of range      *)
+(* [k |-> "life", mode, t, sU | lossU, calls]  one DUCCIO object called    *)
+(*    with epoch AND n_epochs changing from call to call (a behaviour of   *)
+(*    DuccioLife); calls[j] = [e, n, d (arguments omitted), c, cls, v,     *)
+(*    frac, fcls, fv, ffrac] where f* is what a FRESH real regulariser     *)
+(*    with the same final strengths returned for the same costs, epoch and *)
+(*    n_epochs.  Property: every call equals the fresh one.                *)
 (*                                                                         *)
 (* Property clauses -> violation; equality with the formula where the      *)
-(* property only states order facts -> drift.  Signature of finding F17    *)
-(* (scenario predicate): strengths derived from the task loss while some   *)
-(* metric is exactly at its target at the first call.                      *)
+(* property only states order facts -> drift.  Signature of defect F17     *)
+(* (repaired in the repository; a match is therefore reported as a         *)
+(* violation by the harness): strengths derived from the task loss while   *)
+(* some metric is exactly at its target at the first call, and the value   *)
+(* class is the one the pinned initialisation (DerivedStrengthPinned)      *)
+(* produces.                                                               *)
 (***************************************************************************)
 EXTENDS Duccio, Json, IOUtils, TLC
 
@@ -93,6 +108,7 @@ CheckHist(t) ==
         K   == Len(t.calls)
         pos == AllPositive(str)
         f17 == t.mode = "derived" /\ \E i \in DOMAIN t.t : t.calls[1].c[i] = t.t[i]
+        pin == [i \in DOMAIN t.t |-> DerivedStrengthPinned(t.lossM, t.calls[1].c[i], t.t[i])]
         finite(j) == t.calls[j].cls = "fin"
         callmsg(j) == "call " \o ToString(j) \o " (epoch " \o ToString(t.calls[j].e) \o "/" \o ToString(n)
                          \o ", costs " \o ToString(t.calls[j].c) \o ", targets " \o ToString(t.t) \o ")"
@@ -111,7 +127,8 @@ CheckHist(t) ==
                     /\ t.calls[a].e < t.calls[b].e /\ t.calls[a].v > t.calls[b].v}
         \* gradient: finite, non-negative, positive above target
         bad6 == {j \in 1..K : finite(j) /\ Has(t.calls[j], "g") /\
-                    \E i \in DOMAIN t.t : \/ t.calls[j].g[i] < 0
+                    \/ (Has(t.calls[j], "gerr") /\ t.calls[j].gerr)      \* autograd refused the returned value
+                    \/ \E i \in DOMAIN t.t : \/ t.calls[j].g[i] < 0
                                           \/ (pos /\ t.calls[j].c[i] > t.t[i] /\ t.calls[j].g[i] <= 0)}
         \* prediction
         drift == {j \in 1..K : finite(j) /\
@@ -125,7 +142,7 @@ CheckHist(t) ==
     IN  IF \E i \in DOMAIN t.t : t.mode = "derived" /\ ~DerivedExact(t.lossM, t.calls[1].c[i], t.t[i])
         THEN "trace: derived strength not exact"
         ELSE IF bad1 # {}
-        THEN (IF f17 /\ \A j \in bad1 : t.calls[j].cls = PenClass(str, t.calls[j].c, t.t, t.calls[j].e)
+        THEN (IF f17 /\ \A j \in bad1 : t.calls[j].cls = PenClass(pin, t.calls[j].c, t.t, t.calls[j].e)
               THEN "known:F17:DUCCIO with task_loss and a metric exactly at its target at the first call: value is "
                        \o t.calls[any(bad1)].cls \o " at " \o callmsg(any(bad1))
               ELSE "C19.finite: value is " \o t.calls[any(bad1)].cls \o " at " \o callmsg(any(bad1)))
@@ -135,13 +152,80 @@ CheckHist(t) ==
                                    \o " and " \o callmsg(any(bad4)[2])
         ELSE IF bad5 # {} THEN "C19.epoch: value decreases with the epoch between " \o callmsg(any(bad5)[1])
                                    \o " and " \o callmsg(any(bad5)[2])
-        ELSE IF bad6 # {} THEN "C19.grad: gradient w.r.t. a cost is negative, or zero above target, " \o callmsg(any(bad6))
+        ELSE IF bad6 # {} THEN "C19.grad: gradient w.r.t. a cost cannot be computed, is negative, or is zero above target, " \o callmsg(any(bad6))
         ELSE IF drift # {} THEN "drift:C19 value/gradient satisfies the property but differs from the model formula at "
                                    \o callmsg(any(drift))
         ELSE "ok"
 
+\* ------------------------------------------------------------------ BaseRegularizer, any strength form
+CheckBaseQ(t) ==
+    LET exp == 100 * t.sM * t.c
+        d   == IF t.vq >= exp THEN t.vq - exp ELSE exp - t.vq
+    IN  IF t.big \/ d > 2 + exp \div 1000000
+        THEN "C19.base: strength given as " \o t.form \o " (" \o ToString(t.sM) \o "e" \o t.sE \o "), cost "
+                 \o ToString(t.c) \o ": value " \o (IF t.big THEN "out of range" ELSE ToString(t.vq))
+                 \o " differs from strength*cost = " \o ToString(exp) \o " (units of 1e-2 of the strength exponent)"
+        ELSE "ok"
+
+\* ------------------------------------------------------------------ life cycle of one object
+RECURSIVE LifeAfter(_, _, _, _)
+LifeAfter(t, L, life, j) ==        \* life-cycle state after the first j calls (Duccio!LifeCall)
+    IF j = 0 THEN life
+    ELSE LifeCall(LifeAfter(t, L, life, j - 1), L, t.t, t.calls[j])
+
+CheckLife(t) ==
+    LET K    == Len(t.calls)
+        L    == IF t.mode = "given" THEN 0 ELSE t.lossU
+        new  == LifeNew(t.mode, IF t.mode = "given" THEN [i \in DOMAIN t.t |-> Fin(t.sU[i])] ELSE <<>>)
+        end  == LifeAfter(t, L, new, K)
+        str  == end.str                 \* fixed at the first call, never revised (DuccioLife!InitOnce)
+        pos  == AllPositive(str)
+        f17  == t.mode = "derived" /\ \E i \in DOMAIN t.t : t.calls[1].c[i] = t.t[i]
+        pin  == [i \in DOMAIN t.t |-> DerivedStrengthPinned(L, t.calls[1].c[i], t.t[i])]
+        fin(j) == t.calls[j].cls = "fin"
+        msg(j) == "call " \o ToString(j) \o " of " \o ToString(K) \o " (epoch " \o ToString(t.calls[j].e) \o ", n_epochs "
+                     \o ToString(t.calls[j].n) \o (IF t.calls[j].d THEN " by default" ELSE "") \o ", costs "
+                     \o ToString(t.calls[j].c) \o ", targets " \o ToString(t.t) \o "; earlier calls "
+                     \o ToString([i \in 1..(j - 1) |-> <<t.calls[i].e, t.calls[i].n>>]) \o ")"
+        final(j) == LET w == [i \in DOMAIN t.t |-> t.sU[i] * Excess(t.calls[j].c[i], t.t[i])] IN
+                    (IF Len(w) = 1 THEN w[1] ELSE w[1] + w[2]) * VU
+        bad1 == {j \in 1..K : ~fin(j)}
+        \* history independence: equal to the fresh regulariser
+        bad2 == {j \in 1..K : fin(j) /\ (t.calls[j].fcls # "fin" \/ t.calls[j].v # t.calls[j].fv)}
+        bad3 == {j \in 1..K : fin(j) /\ AllWithin(t.calls[j].c, t.t) /\ t.calls[j].v # 0}
+        bad4 == {j \in 1..K : fin(j) /\ pos /\ ~AllWithin(t.calls[j].c, t.t) /\ t.calls[j].v <= 0}
+        \* given strengths: final strength from half the schedule on (incl. omitted arguments), 1% at epoch 0
+        bad5 == {j \in 1..K : fin(j) /\ t.mode = "given" /\ Len(t.t) <= 2 /\
+                    \/ (2 * t.calls[j].e >= t.calls[j].n /\ t.calls[j].v # final(j))
+                    \/ (t.calls[j].e = 0 /\ t.calls[j].v * 100 # final(j))
+                    \/ t.calls[j].v > final(j)}
+        drift == {j \in 1..K : fin(j) /\
+                    \/ t.calls[j].frac \/ ~PenExact(str, t.calls[j].e, t.calls[j].n)
+                    \/ t.calls[j].v # FreshVal(str, t.t, t.calls[j]) * VU}
+        any(S) == CHOOSE x \in S : TRUE
+    IN  IF K = 0 \/ Len(t.t) > 2 THEN "trace: life shape"
+        ELSE IF \E i \in DOMAIN t.t : t.mode = "derived" /\ ~DerivedExact(L, t.calls[1].c[i], t.t[i])
+        THEN "trace: derived strength not exact"
+        ELSE IF bad1 # {}
+        THEN (IF f17 /\ \A j \in bad1 : t.calls[j].cls = PenClass(pin, t.calls[j].c, t.t, t.calls[j].e)
+              THEN "known:F17:DUCCIO with task_loss and a metric exactly at its target at the first call: value is "
+                       \o t.calls[any(bad1)].cls \o " at " \o msg(any(bad1))
+              ELSE "C19.finite: value is " \o t.calls[any(bad1)].cls \o " at " \o msg(any(bad1)))
+        ELSE IF bad2 # {}
+        THEN "C19.history: value " \o ToString(t.calls[any(bad2)].v) \o " differs from the value "
+                 \o ToString(t.calls[any(bad2)].fv) \o " (" \o t.calls[any(bad2)].fcls
+                 \o ") of a fresh regulariser with the same final strengths at " \o msg(any(bad2))
+        ELSE IF bad3 # {} THEN "C19.zero: value is not zero although every cost is within its target, " \o msg(any(bad3))
+        ELSE IF bad4 # {} THEN "C19.zero: value is not positive although a cost exceeds its target, " \o msg(any(bad4))
+        ELSE IF bad5 # {} THEN "C19.ramp: effective strength is not 1% at epoch 0 / the final strength from half the schedule on / exceeds it, "
+                                   \o msg(any(bad5))
+        ELSE IF drift # {} THEN "drift:C19 value satisfies the property but differs from the model formula at " \o msg(any(drift))
+        ELSE "ok"
+
 Check(t) ==
     IF ~Has(t, "k") THEN "trace: missing kind"
+    ELSE IF t.k = "baseq" THEN CheckBaseQ(t)
+    ELSE IF t.k = "life" THEN CheckLife(t)
     ELSE IF t.k = "ramp" THEN CheckRamp(t)
     ELSE IF t.k = "rampg" THEN CheckRampG(t)
     ELSE IF t.k = "base" THEN CheckBase(t)
